@@ -77,6 +77,8 @@ pub struct Case {
     pub pipefail: bool,
     #[serde(default)]
     pub lastpipe: bool,
+    #[serde(default)]
+    pub via_entry: bool,
     pub front_end: FrontEnd,
     pub cfg: SimConfig,
 }
@@ -521,7 +523,8 @@ impl C11 {
         let bytes = model_payload(&stages).max(64);
         cfg.budget = if forever { 30_000 } else { 2_000 + bytes * (nstages as u64) * 8 };
         let lastpipe = rng.below(5) == 0;
-        Case { class, stages, wrap, pipefail: rng.below(3) == 0, lastpipe, front_end, cfg }
+        let via_entry = rng.below(5) == 0;
+        Case { class, stages, wrap, pipefail: rng.below(3) == 0, lastpipe, via_entry, front_end, cfg }
     }
 }
 
@@ -539,6 +542,7 @@ pub fn judge(case: &Case) -> Verdict {
     let m = model(case);
     let mut spec = RunSpec::new(script.clone(), case.front_end.clone(), case.cfg.clone());
     spec.needs_dir = false;
+    spec.via_entry = case.via_entry;
     let r = runner::run(&spec);
     let mut v = Verdict::default();
     v.hashes = vec![r.loghash];
@@ -784,7 +788,7 @@ impl Check for C11 {
     fn components(&self) -> Value {
         json!({
             "real": ["brush-parser", "brush-core interp/commands/results/openfiles/expansion/jobs", "brush-builtins (echo read test printf set ...)", "brush-interactive run_interactively + minimal read_program_from (stdin front-end)"],
-            "stub": ["OS pipes -> bounded in-memory pipes with Linux blocking semantics", "tokio scheduler -> token-passing scheduler over one OS thread per task", "external programs -> harness builtins (simseq/simcat/simhead/simexit)", "sys/unix/async_pipe.rs (replaced by a drain of the simulated pipe)", "brush-shell entry.rs (front-end functions are called directly)"]
+            "stub": ["OS pipes -> bounded in-memory pipes with Linux blocking semantics", "tokio scheduler -> token-passing scheduler over one OS thread per task", "external programs -> harness builtins (simseq/simcat/simhead/simexit)", "sys/unix/async_pipe.rs (replaced by a drain of the simulated pipe)", "brush-shell entry.rs is exercised in a seeded fraction of the cases (verif_run: argument parsing, instantiate_shell, run_in_shell); in the others the front-end functions are called directly"]
         })
     }
     fn assumptions(&self) -> Vec<String> {
